@@ -240,11 +240,13 @@ Definition B (l : blimits) (app_held : N) : option N :=
 
 (* a snapshot, classified: every record is put into the first class that applies *)
 Record bsnap := mkBS {
-  s_held : N;        (* records with a handle (ref_count > 0) *)
+  s_held : N;        (* application-attributable: records with a handle (ref_count > 0), and locally initiated records the
+                        application queued (pending_open / pending_send) and abandoned before they were counted *)
   s_counted : N;     (* else: occupying a concurrency slot (is_counted) *)
   s_expiring : N;    (* else: awaiting reset expiry *)
   s_unaccepted : N;  (* else: in pending_accept *)
-  s_reserved : N;    (* else: reserved pushed stream queued on its parent (ReservedRemote, is_pending_accept) *)
+  s_reserved : N;    (* else: known unbounded classes: promised streams that never became active (queued on the parent or being
+                        cancelled; KF-C18-1) and records leaked by the eviction from pending_capacity (KF-C19-3) *)
   s_queued : N;      (* else: in a send-side queue with a locally reset state (RST_STREAM owed) *)
   s_other : N;       (* none of the above *)
   s_num_send : N; s_num_recv : N; s_num_lreset : N; s_num_rreset : N; s_num_lerr : N
